@@ -59,7 +59,7 @@ man = {
  ],
  "checks": [],
  "not_applicable": [{"property_id": p, "reason": r} for p, r in sorted(todo.items())],
- "notes": "See DESIGN.md. known_findings.json lists genuine defects found by these checks (all repaired by fix: commits in /repo; 'fixed' entries suppress nothing). seeded/RESULTS.md: 100 property-breaking changes written by sub-agents and which checks report them. ./run.sh witnesses replays the witnesses of the repaired defects under plain go test.",
+ "notes": "See DESIGN.md. known_findings.json lists genuine defects found by these checks (all repaired by fix: commits in /repo; 'fixed' entries suppress nothing). seeded/RESULTS.md: 120 property-breaking changes written by sub-agents and which checks report them. ./run.sh witnesses replays the witnesses of the repaired defects under plain go test.",
 }
 for pid in sorted(checks):
     eng, tech, ref = checks[pid]
